@@ -141,6 +141,7 @@ class TokenFile:
             if _verif.ACTIVE:
                 _verif.emit("tok.watch.start", name=self.path.name)
             process = None
+            s = None
             with fasteners.InterProcessLock(lockpath):
                 if not pidpath.is_file():
                     logger.debug("Job already finished (no PID file)")
@@ -158,14 +159,29 @@ class TokenFile:
                     connector = LocalConnector.instance()
                     process = Process.fromDefinition(connector, json.loads(s))
 
-            # Wait out of the lock
-            if process is not None:
-                # Process is None: process has finished
-                process.wait()
+                if process is None:
+                    # Process is None: process has finished
+                    if _verif.ACTIVE:
+                        _verif.emit("tok.watch.reclaim", name=self.path.name)
+                    self.delete()
+                    return
 
-            if _verif.ACTIVE:
-                _verif.emit("tok.watch.reclaim", name=self.path.name)
-            self.delete()
+            # Wait out of the lock
+            process.wait()
+
+            # The token file is removed while holding the job lock (nobody can
+            # be starting the job in the meantime), and only if the job has not
+            # been started again since: it would then hold the token again,
+            # with the same token file
+            with fasteners.InterProcessLock(lockpath):
+                if pidpath.is_file() and pidpath.read_text() != s:
+                    logger.debug("Job started again: keeping %s", self.path)
+                    if _verif.ACTIVE:
+                        _verif.emit("tok.watch.keep", name=self.path.name)
+                    return
+                if _verif.ACTIVE:
+                    _verif.emit("tok.watch.reclaim", name=self.path.name)
+                self.delete()
 
         threading.Thread(target=run).start()
 
